@@ -296,7 +296,7 @@ func execC03(seg []Ev) []Ev {
 }
 
 var c03assignments = [][]string{
-	{"ag", "i:2", "i:1"}, {"ag", "i:5", "n"}, {"i:1", "i:0", "i:-3"}, {"d:2.5", "i:0", "s:abc"}, {"n", "i:1", "n"}, {"s:abc", "i:5", "s:"}, {"a", "i:7", "i:1"}, {"a", "i:-1", "n"},
+	{"ag", "i:2", "i:1"}, {"ag", "i:5", "n"}, {"i32", "u", "u32"}, {"u32", "i32", "i:1"}, {"i:1", "i:0", "i:-3"}, {"d:2.5", "i:0", "s:abc"}, {"n", "i:1", "n"}, {"s:abc", "i:5", "s:"}, {"a", "i:7", "i:1"}, {"a", "i:-1", "n"},
 	{"b:true", "b:false", "i:2"}, {"t:86400", "ts:1500", "i:3"}, {"l:-9223372036854775808", "i:-1", "l:64"}, {"o", "o", "i:1"},
 	{"d:NaN", "d:+Inf", "d:0"}, {"s:é", "i:-2", "i:200"}, {"i:9223372036854775807", "i:9223372036854775807", "i:2"},
 }
